@@ -341,6 +341,11 @@ func TestC20(t *testing.T) {
 			dcs = append(dcs, dcase{"redump", pr, k, 0}, dcase{"3k3y", pr, k, 0})
 		}
 	}
+	// region tables whose plain regions touch (a region starts at the sector the previous one ends on) or hold a single
+	// sector: the tool may refuse them, but what it writes with exit status 0 is the reference plaintext
+	for _, pr := range [][]uint32{{0, 3, 5, 8, 8, 11}, {0, 4, 6, 6, 9, 11}, {0, 3, 6, 8, 8, 9, 9, 11}, {0, 5, 10, 10}, {0, 3, 3, 11}} {
+		dcs = append(dcs, dcase{"redump", pr, c10Keys[1], 0}, dcase{"3k3y", pr, c10Keys[2%len(c10Keys)], 0})
+	}
 	// images that do not end on a sector boundary (the last plain region of the first table is sectors 10-11)
 	for _, cut := range []int{10*2048 + 700, 10*2048 + 1, 11*2048 + 2047, 10 * 2048} {
 		dcs = append(dcs, dcase{"redump", tables[0], c10Keys[1], cut}, dcase{"3k3y", tables[0], c10Keys[1], cut})
@@ -398,6 +403,10 @@ func TestC20(t *testing.T) {
 				so := filepath.Join(base, "stdout.bin")
 				code, _, stderr, err := runTool(append(args, "-"), env, base, so, tmo)
 				r.Transition(1)
+				if err == nil && code != 0 && classifyTable(uint32(len(dc.pairs)/2), dc.pairs) == "borderline" {
+					r.Outcome("decrypt-borderline-table-refused")
+					continue
+				}
 				if err != nil || code != 0 {
 					viol("decrypt-failed", sprintf("%s: exit %d err %v %s", key, code, err, lastLines(stderr, 3)), rep)
 					continue
@@ -412,6 +421,10 @@ func TestC20(t *testing.T) {
 			}
 			code, _, stderr, err := runTool(append(args, outPath), env, base, "", tmo)
 			r.Transition(1)
+			if err == nil && code != 0 && classifyTable(uint32(len(dc.pairs)/2), dc.pairs) == "borderline" {
+				r.Outcome("decrypt-borderline-table-refused")
+				continue
+			}
 			if err != nil || code != 0 {
 				viol("decrypt-failed", sprintf("%s: exit %d err %v %s", key, code, err, lastLines(stderr, 3)), rep)
 				continue
